@@ -99,13 +99,21 @@ def scenarios3(rng, quick):
 
 
 # ------------------------------------------------------------------ TLC helpers
+LABELS = ["op", "xlock", "last_load", "last_cas", "win_load", "win_lock", "rb_done", "rb_copy", "rb_store",
+          "add_slot", "adv_done", "adv_last", "adv_win", "adv_slot", "adv_cas", "notify_lock",
+          "wait_fast", "wait_lock", "wait_park"]     # WaterMarkImpl.tla Labels
+
+
 def parse_json_lines(out, tag):
+    """SCHED / CEX lines: {w, progs, hist} with hist entries 32 * thread + label index."""
     seen, res = set(), []
     for m in re.finditer(r'<<"%s", "(.*)">>' % tag, out):
         s = m.group(1).encode().decode("unicode_escape")
         if s not in seen:
             seen.add(s)
-            res.append(json.loads(s))
+            g = json.loads(s)
+            g["hist"] = [{"t": h // 32, "at": LABELS[h % 32 - 1]} for h in g["hist"]]
+            res.append(g)
     return res
 
 
@@ -118,9 +126,9 @@ def gen_schedules(ctx, name, nthreads, scens, preempt, simulate=None, seed=None,
         fh.write("SPECIFICATION SpecH\nCONSTANTS\n N = %d\n MaxI = %d\n Scenarios <- GS\n CountFirst = TRUE\n MaxPreempt = %d\n Emit = TRUE\n"
                  "INVARIANT EmitHist\nCHECK_DEADLOCK FALSE\n" % (nthreads, MAXI, preempt))
     r = ctx.tlc_or_undecided(mod, mod + ".cfg", workers=1 if simulate else workers, simulate=simulate,
-                             depth=600 if simulate else None, seed=seed, timeout=timeout)
-    if r.violated:
-        raise Undecided("schedule generation %s hit %s:\n%s" % (name, r.violated, r.out[-2000:]))
+                             depth=600 if simulate else None, seed=seed, timeout=timeout, heap="3g")
+    if r.violated or not r.ok:
+        raise Undecided("schedule generation %s did not complete (rc %s, %s):\n%s" % (name, r.rc, r.violated, r.out[-2000:]))
     return parse_json_lines(r.out, "SCHED"), r
 
 
@@ -171,7 +179,7 @@ def project(evs):
     out, raw, last_d, grew = [], [], None, False
     for n, e in enumerate(evs):
         k = e["e"]
-        if k in ("BeginCall", "BeginRet", "DoneCall"):
+        if k in ("BeginRet", "DoneCall"):     # BeginCall carries no obligation: not sent to the validator
             out.append({"e": k, "is": e["is"]}); raw.append(n)
             grew = grew or k == "BeginRet"
         elif k == "WaitRet":
@@ -290,22 +298,29 @@ def run(ctx):
     pool = ThreadPoolExecutor(max_workers=max(2, ctx.workers))
     w_m1 = max(1, ctx.workers // (3 if quick else 2))
     # ---------------------------------------------------------------- M1 (submitted; gathered below)
-    gating = ["MC_serial2.cfg", "MC_witness2.cfg"] + ([] if quick else ["MC_serial3.cfg", "MC_witness3.cfg"])
+    gating = ["MC_serial2.cfg", "MC_witness2q.cfg"] if quick else ["MC_serial2.cfg", "MC_witness2.cfg", "MC_serial3.cfg", "MC_witness3.cfg"]
     red = {"MC_asis.cfg": "C32-late-begin", "MC_asis_rebuild.cfg": "C32-window-race", "MC_prefix.cfg": None}
-    fut_m1 = {c: pool.submit(ctx.tlc_or_undecided, "WaterMarkImpl", c, workers=w_m1, timeout=2400, coverage=(not quick and c.endswith("2.cfg")))
+    fut_m1 = {c: pool.submit(ctx.tlc_or_undecided, "WaterMarkImpl", c, workers=w_m1, timeout=2400, coverage=(not quick and c.endswith("2.cfg")),
+                                heap="2g" if quick else "6g")
               for c in gating}
-    fut_red = {c: pool.submit(ctx.tlc_or_undecided, "WaterMarkImpl", c, workers=1, timeout=600) for c in red}
+    if quick:
+        red = {}   # quick tier: the recorded replays (themselves counterexamples of these configurations) stand in
+    fut_red = {c: pool.submit(ctx.tlc_or_undecided, "WaterMarkImpl", c, workers=1, timeout=600, heap="1g") for c in red}
     # ---------------------------------------------------------------- M2 generation
     s2, s3 = scenarios2(ctx.rng, quick), scenarios3(ctx.rng, quick)
-    gens = []
-    k2 = 2 if quick else 3
-    half = (len(s2) + 1) // 2
-    gens.append(("p2a", pool.submit(gen_schedules, ctx, "p2a", 2, s2[:half], k2)))
-    gens.append(("p2b", pool.submit(gen_schedules, ctx, "p2b", 2, s2[half:], k2)))
-    gens.append(("p3", pool.submit(gen_schedules, ctx, "p3", 3, s3, 1 if quick else 2)))
-    nsim = 250 if quick else 4000
-    gens.append(("sim3", pool.submit(gen_schedules, ctx, "sim3", 3, s3, 1000, simulate="num=%d" % nsim, seed=ctx.seed)))
-    gens.append(("sim2", pool.submit(gen_schedules, ctx, "sim2", 2, s2, 1000, simulate="num=%d" % nsim, seed=ctx.seed + 7)))
+    # deepest pre-emption bound for one scenario per class: envelope, free Begins (thorough: + serialised with rebuild)
+    core2 = [s2[0], s2[5]] if quick else [s2[0], s2[4], s2[5]]
+    rest2 = [s for s in s2 if s not in core2]
+    nsim = 500 if quick else 5000
+    plan = [  # name, threads, scenarios, pre-emption bound, simulate
+        ("p2", 2, core2, 2 if quick else 3, None),
+        ("p2rest", 2, rest2, 1 if quick else 2, None),
+        ("p3", 3, s3, 1 if quick else 2, None),
+        ("sim2", 2, s2, 1000, nsim), ("sim3", 3, s3, 1000, nsim),
+    ] + ([] if quick else [("sim2p", 2, s2, 3, nsim), ("sim3p", 3, s3, 3, nsim)])
+    gens = [(name, pool.submit(gen_schedules, ctx, name, n, sc, k, simulate="num=%d" % sim if sim else None,
+                               seed=ctx.seed * 100 + i if sim else None)) for i, (name, n, sc, k, sim) in enumerate(plan)]
+    k2, k3 = plan[0][3], plan[2][3]
 
     scheds, origin = [], {}
 
@@ -319,6 +334,7 @@ def run(ctx):
     for name, f in gens:
         lst, r = f.result()
         gen_counts[name] = len(lst)
+        ctx.log("M2 %s: %d schedules (TLC %.0fs)" % (name, len(lst), r.wall))
         if not lst:
             raise Undecided("schedule generation %s produced nothing:\n%s" % (name, r.out[-1500:]))
         for g in lst:
@@ -374,15 +390,53 @@ def run(ctx):
     # ---------------------------------------------------------------- M3
     proj = {s["id"]: project(traces[s["id"]]) for s in scheds}
     order = [s["id"] for s in scheds]
-    parts = chunks(order, max(1, ctx.workers))
+    # binding self-test (negative controls), validated in the same TLC runs: a recorded trace with one
+    # observation moved onto a pending index, a decreasing mark, a WaitForMark returning over a pending index
+    ctl = None
+    for sid in order:
+        t, pend = proj[sid][0], {}
+        for j, e in enumerate(t):
+            if e["e"] == "BeginRet":
+                for i in e["is"]:
+                    pend[i] = pend.get(i, 0) + 1
+            elif e["e"] == "DoneCall":
+                for i in e["is"]:
+                    pend[i] = pend.get(i, 0) - 1
+            elif e["e"] == "Observe" and any(c > 0 for c in pend.values()) and e["d"] < min(i for i, c in pend.items() if c > 0):
+                ctl = [dict(x) for x in t[:j + 1]]
+                ctl[j]["d"] = min(i for i, c in pend.items() if c > 0)
+                break
+        if ctl:
+            break
+    if ctl is None:
+        raise Undecided("no trace with a pending index above the mark at an observation: the driver is not exercising the watermark")
+    controls = {-1: ctl, -2: [{"e": "Observe", "d": 2}, {"e": "Observe", "d": 1}], -3: [{"e": "BeginRet", "is": [1]}, {"e": "WaitRet", "i": 1}]}
+    for cid, t in controls.items():
+        proj[cid] = (t, None)
+    # many schedules yield the same abstract event sequence: each distinct sequence is validated once
+    groups = {}
+    for i in order:
+        groups.setdefault(json.dumps(proj[i][0]), []).append(i)
+    reps = [g[0] for g in groups.values()]
+    for cid in controls:
+        groups["control%d" % cid] = [cid]
+        reps.append(cid)
+    parts = [p for p in chunks(reps, max(1, min(ctx.workers, 8))) if p]
     futs = [pool.submit(ctx.validate_traces, "WaterMarkPropTrace", "WaterMarkPropTrace.cfg", [proj[i][0] for i in part], timeout=1500)
-            for part in parts if part]
-    rejected = []
-    for part, f in zip([p for p in parts if p], futs):
+            for part in parts]
+    rejected, ctl_rejected = [], set()
+    for part, f in zip(parts, futs):
         for (ti, line, pev, want) in f.result():
-            rejected.append((part[ti], line, pev, want))
+            if part[ti] < 0:
+                ctl_rejected.add((part[ti], line))
+                continue
+            for sid in groups[json.dumps(proj[part[ti]][0])]:
+                rejected.append((sid, line, pev, want))
+    if ctl_rejected != {(-1, len(ctl) - 1), (-2, 1), (-3, 1)}:
+        raise Undecided("negative controls not rejected exactly where corrupted (%s): the trace specification does not bind "
+                        "observations / wait returns to pending indices" % sorted(ctl_rejected))
     nevents = sum(len(proj[i][0]) for i in order)
-    ctx.log("M3: %d traces / %d abstract events (%d scheduler steps) validated, %d contradictions" % (len(order), nevents, nsteps, len(rejected)))
+    ctx.log("M3: %d traces / %d abstract events (%d scheduler steps; %d distinct abstract traces sent to TLC), %d contradictions" % (len(order), nevents, nsteps, len(reps), len(rejected)))
     # ---------------------------------------------------------------- verdicts
     by_sched = {}
     for (sid, line, pev, want) in rejected:
@@ -421,34 +475,6 @@ def run(ctx):
         ctx.log("M1 %s: %d generated, %d distinct, depth %d (%.0fs)" % (c, r.generated, r.distinct, r.depth, r.wall))
     for c, r in red_res.items():
         ctx.log("M1 %s (expected red): %s after %d distinct states" % (c, r.violated, r.distinct))
-    # ---------------------------------------------------------------- binding self-test (negative controls)
-    ctl = None
-    for sid in order:
-        if sid in by_sched:
-            continue
-        t = proj[sid][0]
-        pend = {}
-        for j, e in enumerate(t):
-            if e["e"] == "BeginRet":
-                for i in e["is"]:
-                    pend[i] = pend.get(i, 0) + 1
-            elif e["e"] == "DoneCall":
-                for i in e["is"]:
-                    pend[i] = pend.get(i, 0) - 1
-            elif e["e"] == "Observe" and any(c > 0 for c in pend.values()):
-                ctl = [dict(x) for x in t]
-                ctl[j]["d"] = min(i for i, c in pend.items() if c > 0)   # corrupted observation: mark on a pending index
-                break
-        if ctl:
-            break
-    if ctl is None:
-        raise Undecided("no accepted trace with a pending index at an observation: the driver is not exercising the watermark")
-    if not ctx.validate_traces("WaterMarkPropTrace", "WaterMarkPropTrace.cfg", [ctl]):
-        raise Undecided("negative control accepted: the trace specification does not bind observations to pending indices")
-    dec = [{"e": "Observe", "d": 2}, {"e": "Observe", "d": 1}]
-    early = [{"e": "BeginRet", "is": [1]}, {"e": "WaitRet", "i": 1}]
-    if len(ctx.validate_traces("WaterMarkPropTrace", "WaterMarkPropTrace.cfg", [dec, early])) != 2:
-        raise Undecided("negative control accepted: decreasing mark / early WaitForMark return not rejected")
     # ---------------------------------------------------------------- evidence
     distinct = {json.dumps([s["w"], s["progs"], s["sched"]]) for s in scheds if nontrivial(traces[s["id"]])}
     envelope = sum(1 for s in scheds if in_envelope(s))
@@ -457,15 +483,15 @@ def run(ctx):
         "states": sum(r.distinct for r in m1.values()), "transitions": sum(r.generated for r in m1.values()),
         "traces_validated_against_impl": len(order), "evaluations": len(scheds), "distinct_nontrivial": len(distinct),
         "rule": "schedules (sequences of thread ids) enumerated by TLC from WaterMarkImpl.tla: every interleaving with <= k pre-emptions "
-                "(2 threads k=%d, 3 threads k=%d) plus %d random simulations per thread count, plus model counterexamples and recorded replays; "
+                "(2 threads: k=%d for three core scenarios, k-1 for the others; 3 threads: k=%d) plus %d random walks per thread count (thorough: also %d walks with <= 3 pre-emptions), plus model counterexamples and recorded replays; "
                 "each executed step by step on a real utils.WaterMark; non-trivial = some step runs while another thread is parked inside a WaterMark call; "
-                "distinct by (window, programs, schedule)" % (k2, 1 if quick else 2, nsim),
+                "distinct by (window, programs, schedule)" % (k2, k3, nsim, nsim),
         "samples": [{"schedule": {k: sample[k] for k in ("w", "progs", "sched")}, "abstract_events": proj[sample["id"]][0][:14],
                      "first_steps": [{k: e[k] for k in ("t", "from", "fa", "to", "d", "last")} for e in traces[sample["id"]] if e["e"] == "Step"][:8]}],
         "m1": {c: {"generated": r.generated, "distinct": r.distinct, "depth": r.depth, "coverage_zero": r.coverage_zero} for c, r in m1.items()},
         "m1_expected_red": {c: {"violated": r.violated, "distinct": r.distinct} for c, r in red_res.items()},
         "generated": gen_counts, "schedules_in_safe_envelope": envelope, "scheduler_steps": nsteps, "abstract_events_validated": nevents,
-        "contradictions": len(rejected), "known_finding_hits": hits, "drift_schedules": drift,
+        "distinct_abstract_traces_validated_by_tlc": len(reps), "contradictions": len(rejected), "known_finding_hits": hits, "drift_schedules": drift,
         "negative_control": "3 corrupted traces rejected as required",
         "checker_cmd": "tlc -config MC_serial2.cfg WaterMarkImpl.tla ; tlc -config MC_witness2.cfg WaterMarkImpl.tla ; tlc -config WaterMarkPropTrace.cfg WaterMarkPropTrace.tla",
     }, assumptions=[
